@@ -49,6 +49,7 @@ func runC11(c *Ctx, w *World, r *Report) {
 	ReportScale(w, r, names...)
 	ReportPair(w, r, names...)
 	ReportRound(w, r, names...)
+	ReportTableWidth(w, r)
 	reportFresh(w, r, "bmtree.PathsOf")
 	if !ok {
 		return
